@@ -335,6 +335,22 @@ def _no_value_branch(b):
     return not any(b.term(bb)["k"] == "switch" for bb in range(b.n))
 
 
+def _writer_bodies(ctx, b):
+    """the body plus the private helpers, closures and local-trait methods (not reference functions)
+    it reaches: where the digit loop may live after a refactoring"""
+    from guards import anchors
+    F, cg = ctx.F, ctx.cg
+    seen, _, _, _ = cg.reach([b.path], follow=lambda e: e.target is not None and e.target not in anchors(F))
+    return [F.bodies[p] for p in sorted(seen) if p in F.bodies]
+
+
+def _const_of_expr(e):
+    e = strip_refs(e)
+    while e[0] == "cast":
+        e = strip_refs(e[2])
+    return e[2] if e[0] == "const" and isinstance(e[2], int) else None
+
+
 def _unrolled_writer(ctx, rule, key, b, ty):
     F = ctx.F
     rng = int_range(ty, F.ptr_bits)
@@ -344,13 +360,15 @@ def _unrolled_writer(ctx, rule, key, b, ty):
     if len(dc) != 1:
         return
     dcd = describe(b, ("call", dc[0]))
-    for bb, t in b.calls():
-        n = callee_name(t)
-        if n == "repr::Repr::with_capacity":
-            d = describe(b, b.origin_operand(t["args"][0]))
+    # the writer may live in the body itself or in a private (possibly generic) helper it hands the
+    # magnitude and the digit count to: sites are looked at from this body, operands in its terms
+    from guards import inlined_sites, anchors
+    for st in inlined_sites(b, lambda nm: nm in ("repr::Repr::with_capacity", "repr::Repr::set_len")):
+        if st.name == "repr::Repr::with_capacity":
+            d = st.desc(0)
             ctx.ob(rule, key, "with_capacity(digits)", d == dcd, how="capacity = digit_count(self)", detail="with_capacity called with %s" % d)
-        if n == "repr::Repr::set_len":
-            d = describe(b, b.origin_operand(t["args"][1]))
+        else:
+            d = st.desc(1)
             ctx.ob(rule, key, "set_len(digits)", d == dcd, how="published length = digit_count(self)", detail="set_len called with %s" % d)
     # the buffer the digits are written into has room for them: it comes from
     # with_capacity(digit_count(self)), or is the empty inline buffer when every value of the type
@@ -358,23 +376,22 @@ def _unrolled_writer(ctx, rule, key, b, ty):
     M = F.const_scalar("repr::MAX_INLINE_SIZE")
     maxdig = max(len(str(rng[0])), len(str(rng[1])))
     recv = set()
-    for bb, t in b.calls():
-        if callee_name(t) in ("repr::Repr::as_slice_mut", "repr::Repr::set_len") and t["args"]:
-            e = strip_refs(b.origin_operand(t["args"][0]))
-            while e[0] in ("ref", "rawptr", "deref"):
-                e = strip_refs(e[2] if e[0] != "deref" else e[1])
-            if e[0] in ("mem", "local"):
-                recv.add(e[1])
+    for st in inlined_sites(b, lambda nm: nm in ("repr::Repr::as_slice_mut", "repr::Repr::set_len")):
+        fb = st.body
+        e = strip_refs(fb.origin_operand(st.t["args"][0]))
+        while e[0] in ("ref", "rawptr", "deref"):
+            e = strip_refs(e[2] if e[0] != "deref" else e[1])
+        if e[0] in ("mem", "local"):
+            recv.add((fb.path, e[1]))
+            live = fb.reachable(0)
+            for (dbb, si, x) in fb.defs.get(e[1], []):
+                if dbb not in live:
+                    continue   # an arm cut off by a compile-time condition (size_of::<T>() <= 4)
+                d = describe(fb, ("call", dbb) if si == "term" else fb.origin_rvalue(x), 0, st.subst[-1])
+                ok = d == "ok(repr::Repr::with_capacity(%s))" % dcd or (d == "repr::Repr::new()" and M is not None and maxdig <= M)
+                ctx.ob(rule, key, "buffer-has-room", ok, how="buffer = with_capacity(digit_count(self))" if d != "repr::Repr::new()" else "empty inline buffer: %d digits <= %d inline bytes" % (maxdig, M),
+                       detail="the digits of %s (up to %d bytes) are written into %s%s" % (ty, maxdig, d, (": the inline buffer holds %s bytes on this target" % M) if d == "repr::Repr::new()" else ""))
     ctx.ob(rule, key, "writes-into-own-buffer", len(recv) == 1, how="one local Repr receives the digits", detail="digits are written into %d different buffers" % len(recv))
-    live = b.reachable(0)
-    for l in sorted(recv):
-        for (dbb, si, x) in b.defs.get(l, []):
-            if dbb not in live:
-                continue   # an arm cut off by a compile-time condition (size_of::<T>() <= 4)
-            d = describe(b, ("call", dbb) if si == "term" else b.origin_rvalue(x))
-            ok = d == "ok(repr::Repr::with_capacity(%s))" % dcd or (d == "repr::Repr::new()" and M is not None and maxdig <= M)
-            ctx.ob(rule, key, "buffer-has-room", ok, line=b.line(dbb) if si == "term" else x.get("line", 0) if isinstance(x, dict) else 0, how="buffer = with_capacity(digit_count(self))" if d != "repr::Repr::new()" else "empty inline buffer: %d digits <= %d inline bytes" % (maxdig, M),
-                   detail="the digits of %s (up to %d bytes) are written into %s%s" % (ty, maxdig, d, (": the inline buffer holds %s bytes on this target" % M) if d == "repr::Repr::new()" else ""))
     # the widening cast: IntToInt from the type to an unsigned type at least as wide
     casts = []
     for blk in b.blocks:
@@ -387,18 +404,29 @@ def _unrolled_writer(ctx, rule, key, b, ty):
     ctx.ob(rule, key, "lossless-cast", okc, how="`self as %s` (>= %d bits)" % (sorted(set(casts)), own), detail="integer is cast to %s before formatting (narrower than %d bits loses digits)" % (sorted(set(casts)), own))
     # loop thresholds: the 4-digit loop runs while n >= 10^4, the 2-digit step on n >= 100, last split n < 10
     # as intervals: some edge establishes n >= 10^4, one n >= 100, one splits at 10
-    los = {lo for _, lo, hi, _, _ in cmp_facts(b) if lo is not None and hi is None}
-    his = {hi for _, lo, hi, _, _ in cmp_facts(b) if hi is not None and lo is None}
+    wb = _writer_bodies(ctx, b)
+    los = {lo for x in wb for _, lo, hi, _, _ in cmp_facts(x) if lo is not None and hi is None}
+    his = {hi for x in wb for _, lo, hi, _, _ in cmp_facts(x) if hi is not None and lo is None}
+    for x in wb:
+        # `self >= 10000` as the whole body of a small predicate (a trait method of the work type)
+        for (dbb, si, rv) in x.defs.get(0, []):
+            if si != "term":
+                e = strip_refs(x.origin_rvalue(rv))
+                if e[0] == "bin" and e[1] in ("Ge", "Gt", "Lt", "Le"):
+                    c = _const_of_expr(e[3])
+                    if c is not None:
+                        (los if e[1] in ("Ge", "Gt") else his).add(c if e[1] in ("Ge", "Le") else (c + 1 if e[1] == "Gt" else c - 1))
     need = [100, 10] + ([10000] if own >= 16 else [])
     miss = [k for k in need if k not in los and (k - 1) not in his]
     ctx.ob(rule, key, "thresholds", not miss, how="guards n >= 10^4 / n >= 100 / n >= 10 present (as intervals)", detail="unrolled writer lacks the split(s) at %s; lower bounds seen %s" % (miss, sorted(x for x in los if x < 100000)))
     # divisors
     divs = set()
-    for blk in b.blocks:
-        for s in blk["stmts"]:
-            if s["k"] == "assign" and s["rv"]["k"] == "bin" and s["rv"]["op"] in ("Div", "Rem"):
-                v = _const_of(b, s["rv"]["b"])
-                divs.add((s["rv"]["op"], v))
+    for x in wb:
+        for blk in x.blocks:
+            for s in blk["stmts"]:
+                if s["k"] == "assign" and s["rv"]["k"] == "bin" and s["rv"]["op"] in ("Div", "Rem"):
+                    v = _const_of(x, s["rv"]["b"])
+                    divs.add((s["rv"]["op"], v))
     needd = {("Rem", 100), ("Div", 100)}
     if own >= 16:
         needd |= {("Rem", 10000), ("Div", 10000)}
